@@ -195,6 +195,7 @@ func matchNPMRequirement(req VersionKey, vers []Version) []Version {
 // matchRequirement is a default implementation of MatchRequirement, appropriate
 // for many systems.
 func matchRequirement(req VersionKey, versions []Version) []Version {
+	SortVersions(versions)
 	constraint, err := req.System.Semver().ParseConstraint(req.Version)
 	if err != nil {
 		// Fall back to string matching.
